@@ -242,6 +242,8 @@ class Action:
                     params[k] = AgentInfo.from_dict(v)
                 case "request_trajectory":
                     params[k] = ast.literal_eval(v)
+                    if not isinstance(params[k], bool):
+                        raise ValueError(f"Unsupported value in {k}: {v}")
                 case _:
                     raise ValueError(f"Unsupported value in {k}: {v}")
         return cls(action_type=action_type, parameters=params)
